@@ -70,7 +70,13 @@ def oracle(spec):
     return out
 
 
-def drv(text, spec, copy_mode=False):
+def drv(text, spec, copy_mode=False, cut=None):
+    if cut is not None:
+        # the document arrives in two parts that are parsed into the SAME library: the statement holds for what the
+        # library ends up with (first block of a key = the live one, wherever it came from)
+        lib = bibtexparser.parse_string(mk(chars(text)[:cut]))
+        lib = bibtexparser.parse_string(mk(chars(text)[cut + 1:]), library=lib)
+        return lib, oracle(spec)
     if copy_mode:
         from bibtexparser.middlewares import ResolveStringReferencesMiddleware, RemoveEnclosingMiddleware
         lib = bibtexparser.parse_string(text, parse_stack=[ResolveStringReferencesMiddleware(allow_inplace_modification=False),
@@ -78,6 +84,9 @@ def drv(text, spec, copy_mode=False):
     else:
         lib = bibtexparser.parse_string(text)
     return lib, oracle(spec)
+
+
+CUTS = []      # character offsets of the line feeds between the blocks of the document built last
 
 
 def build(eng, shape):
@@ -94,8 +103,10 @@ def build(eng, shape):
         cs.append(c)
         return mk([c])
 
+    cuts = []
     for n, sh in enumerate(shape):
         if n:
+            cuts.append(len(cs))
             lit("\n")
         if sh[0] == "entry":
             lit("@x{")
@@ -115,6 +126,7 @@ def build(eng, shape):
         else:
             lit("@comment{c}")
             spec.append(("comment",))
+    CUTS[:] = cuts
     return mk(cs), spec
 
 
@@ -178,28 +190,30 @@ def verdict(lib, spec, exp, E, truth, copy_mode=False):
     return conds
 
 
-def native_run(text, spec_native, copy_mode=False):
-    import logging
+def native_run(text, spec_native, copy_mode=False, cut=None):
+    import logging, warnings
     logging.disable(logging.CRITICAL)
-    lib, exp = drv(text, spec_native, copy_mode)
+    warnings.simplefilter("ignore")
+    lib, exp = drv(text, spec_native, copy_mode, cut)
     E = lambda a, b: a == b
     conds = verdict(lib, spec_native, exp, E, bool, copy_mode)
     return all(bool(c) for c in conds), [type(b).__name__ for b in lib.blocks], exp
 
 
-def task(shape, label, copy_mode=False):
+def task(shape, label, copy_mode=False, cut_after=None):
     eng = Engine()
     rec = Recorder(eng)
     text, spec = build(eng, shape)
+    cut = None if cut_after is None else CUTS[cut_after]
     E = eng.I.models.eq_simple
-    worlds = eng.run(drv, [text, spec, copy_mode])
+    worlds = eng.run(drv, [text, spec, copy_mode, cut])
 
     def rp(m):
         t = eng.model_str(m, text)
         sn = eng.model_value(m, spec)
         sn = [tuple(x) for x in sn]
         try:
-            ok, kinds, exp = native_run(t, sn, copy_mode)
+            ok, kinds, exp = native_run(t, sn, copy_mode, cut)
         except Exception as e:  # noqa
             from pysym.harness import guard_repo_exception
             guard_repo_exception(e)
@@ -224,7 +238,7 @@ def task(shape, label, copy_mode=False):
             ok, m = eng.query(W, True)
             if ok:
                 t = eng.model_str(m, text)
-                rec.samples.append({"document": t, "expected": kinds, "native_ok": native_run(t, [tuple(x) for x in eng.model_value(m, spec)], copy_mode)[0]})
+                rec.samples.append({"document": t, "expected": kinds, "native_ok": native_run(t, [tuple(x) for x in eng.model_value(m, spec)], copy_mode, cut)[0]})
                 rec.validated += 1
     return rec.result(label=label, worlds=len(worlds))
 
@@ -251,6 +265,13 @@ def main():
         chk.add_task(f"{i:03d}-{name}", task, shape=sh, label=name)
         # (copy-mode parse stacks are not part of this property: there previous_block is an equal-by-construction but
         #  untransformed copy of the first block - see DESIGN §7; aliasing in copy mode is C07's subject)
+    # the same documents cut in two and parsed into one library (parse_string(part2, library=lib))
+    two = [sh for sh in shapes if len(sh) == 3 and sum(1 for x in sh if x[0] != "comment") >= 2 and all(x[0] != "entry" or x[1] <= 1 for x in sh)]
+    chk.bounds["two documents, one library"] = f"{len(two)} three-block shapes (entries with 0..1 fields, @string, @comment) cut after the first and after the second block"
+    for i, sh in enumerate(two):
+        name = "+".join(x[0][0] + (str(x[1]) if len(x) > 1 else "") for x in sh)
+        for c in (0, 1):
+            chk.add_task(f"two-{i:03d}-{name}-cut{c}", task, shape=sh, label=name, cut_after=c)
     chk.run()
 
 
